@@ -111,3 +111,17 @@ VARIANTS += [
  dict(name='fetch-in-helper-one-caller-without-cap', expect='flagged(size-cap/(*ngo/registry.repositoryClient).getSignatureBlobDesc)',
       edits=FV_EDITS + [(R, '\tif sigManifestDesc.Size > maxManifestSizeLimit {\n\t\treturn ocispec.Descriptor{}, fmt.Errorf("signature manifest too large: %d bytes", sigManifestDesc.Size)\n\t}\n', '')]),
 ]
+
+# range-over-func loops (slices.Backward / slices.All): the compiler's protocol checks are not product panics, and the index
+# the iterator yields is a valid index of the ranged slice (and of a slice known to have the same length)
+IT_IMPORT = (V, '\t"strings"\n\t"time"\n', '\t"strings"\n\tstdslices "slices"\n\t"time"\n')
+IT_OLD = 'for i := len(certResults) - 1; i >= 0; i-- {\n\t\tcert := certChain[i]\n\t\tcertResult := certResults[i]'
+VARIANTS += [
+ dict(name='benign-range-over-backward-iterator', expect='silent',
+      edits=[IT_IMPORT, (V, IT_OLD, 'for i, certResult := range stdslices.Backward(certResults) {\n\t\tcert := certChain[i]')]),
+ dict(name='iterator-index-into-unrelated-slice', expect='flagged(index/ngo/verifier.revocationFinalResult)',
+      edits=[IT_IMPORT, (V, IT_OLD, 'for i, certResult := range stdslices.Backward(certResults) {\n\t\tcert := certChain[i+1]')]),
+ dict(name='iterator-without-length-agreement', expect='flagged(index/ngo/verifier.revocationFinalResult)',
+      edits=[IT_IMPORT, (V, IT_OLD, 'for i, certResult := range stdslices.Backward(certResults) {\n\t\tcert := certChain[i]'),
+             (V, '\tif len(certResults) != len(certChain) {', '\tif len(certResults) > len(certChain)+1 {')]),
+]
